@@ -319,7 +319,16 @@ func main() {
 	buf.WriteString("\nend Cors.Gen.Facts\n")
 	if *out == "" {
 		os.Stdout.Write(buf.Bytes())
+		os.Stdout.WriteString(translatePipeline(pkgs))
 		return
+	}
+	// the translated pipeline steps go next to the facts
+	pipe := []byte(translatePipeline(pkgs))
+	pipePath := filepath.Join(filepath.Dir(*out), "Pipeline.lean")
+	if old, err := os.ReadFile(pipePath); err != nil || !bytes.Equal(old, pipe) {
+		if err := os.WriteFile(pipePath, pipe, 0o644); err != nil {
+			fatal(err)
+		}
 	}
 	if old, err := os.ReadFile(*out); err == nil && bytes.Equal(old, buf.Bytes()) {
 		return // keep mtime: nothing changed
